@@ -24,6 +24,10 @@ WRONG = {
     ('unsignedLong', 'text'): 'x', ('unsignedLong', 'negative'): '-1', ('unsignedLong', 'toobig'): '18446744073709551616',
     ('duration', 'text'): 'one hour',
 }
+for _t in ('integer', 'nonNegativeInteger', 'positiveInteger', 'unsignedShort', 'unsignedByte', 'unsignedInt', 'unsignedLong'):
+    WRONG[(_t, 'multisign')] = '+-12'
+    WRONG[(_t, 'underscore')] = '1_0'
+    WRONG[(_t, 'otherdigits')] = u'\u0661\u0662'          # ARABIC-INDIC DIGIT ONE, TWO
 TEXT = {'string': 'text', 'anyURI': 'urn:verif:text', 'base64Binary': 'YWJj', 'integer': '1', 'boolean': 'true', 'NCName': 'n',
         'QName': 'xs:string', 'datetime': '2020-01-02T03:04:05Z', 'NMTOKEN': 'tok', 'unsignedLong': '1', 'unsignedInt': '1',
         'anyType': 'x', 'list': 'urn:a'}
@@ -122,6 +126,14 @@ def replay(case):
             else:
                 setattr(parent, ch['member'], inst)
             out['nested'].append([pid, ch['member'], run(parent)])
+            # ... and as the last of two siblings, after an otherwise valid one (where the parent may hold two)
+            if ch['list']:
+                probe = minimal(pid, 1)
+                setattr(probe, ch['member'], [minimal(v['cls'], 1), minimal(v['cls'], 1)])
+                if run(probe)[0] == 'valid':
+                    parent = minimal(pid, 1)
+                    setattr(parent, ch['member'], [minimal(v['cls'], 1), inst])
+                    out['nested'].append([pid, ch['member'] + '[2nd]', run(parent)])
         except Exception as exc:
             out['nested'].append([pid, ch['member'], ('build_error', str(exc)[:100])])
     return out
